@@ -1,0 +1,29 @@
+//go:build verif
+
+package pdf
+
+import "bytes"
+
+// VerifParseObjects parses a sequence of PDF objects (as it could appear
+// inside an array), including the detection of "a b R" references.
+//
+// This function only exists in builds with the "verif" tag; it gives the
+// verification harness access to the unexported scanner.
+func VerifParseObjects(data []byte) (Array, error) {
+	buf := make([]byte, 0, len(data)+2)
+	buf = append(buf, data...)
+	buf = append(buf, '\n', ']')
+	s := newScanner(bytes.NewReader(buf), nil, nil)
+	return s.ReadArray()
+}
+
+// VerifReadObject parses the first PDF object in data and returns the number
+// of bytes consumed.
+func VerifReadObject(data []byte) (Native, int64, error) {
+	s := newScanner(bytes.NewReader(data), nil, nil)
+	if err := s.SkipWhiteSpace(); err != nil {
+		return nil, s.CurrentPos(), err
+	}
+	obj, err := s.ReadObject()
+	return obj, s.CurrentPos(), err
+}
